@@ -339,37 +339,63 @@ def record_all(jobs, nproc=16, tz=None):
         shutil.rmtree(scratch, ignore_errors=True)
 
 
+MAX_EVENTS_PER_RUN = 8000       # TLC re-reads the JSON once per worker: many small TLC runs side by side beat one big one
+PARALLEL_TLC = 7
+WORKERS_PER_TLC = 2
+
+
 def judge(traces, workers=16, timeout=3000):
-    """Returns ({trace id: verdict dict}, stats).  One TLC run per auto_index value."""
+    """Returns ({trace id: verdict dict}, stats).  The traces are judged by several TLC processes side by side
+    (chunks of bounded size, grouped by auto_index); `workers` only caps the parallelism."""
+    import concurrent.futures
     verdicts = {}
-    stats = {"states": 0, "transitions": 0, "cmd": ""}
+    stats = {"states": 0, "transitions": 0, "cmd": "", "tlc_runs": 0}
+    todo = []
     for ai in (1, 0):
         part = [t for t in traces if t["auto_index"] == ai]
-        if not part:
-            continue
-        scratch = tlc.mkscratch("judge-")
-        try:
-            path = os.path.join(scratch, "traces.json")
-            with open(path, "w") as fh:
-                json.dump({"traces": [{k: t[k] for k in ("id", "init", "valid0", "events", "mode") if k in t}
-                                      for t in part]}, fh)
-            cfg = tlc.cfg_text(init="TraceInit", next_="TraceNext", constants={"AutoIndex": bool(ai)},
-                               invariants=["Verdict", "TraceTyped"])
-            r = tlc.run_tlc("Trace_TinyFlux", cfg, env={"VERIF_IN": path}, workers=workers, timeout=timeout)
-            tlc.require_clean(r, "Trace_TinyFlux (auto_index=%d)" % ai)
-            if r.violated:
-                raise tlc.MachineryError("trace spec invariant violated: %s\n%s" % (r.violated, r.tail(40)))
-            got = {v["id"]: v for v in r.lines("VERDICT")}
-            missing = [t["id"] for t in part if t["id"] not in got]
-            if missing:
-                raise tlc.MachineryError("no verdict for %d trace(s), e.g. %r\n%s" % (len(missing), missing[:3], r.tail(30)))
-            verdicts.update(got)
-            stats["states"] += r.distinct
-            stats["transitions"] += r.states
-            stats["cmd"] = r.cmd
-        finally:
-            shutil.rmtree(scratch, ignore_errors=True)
+        chunk, n = [], 0
+        chunks = []
+        for t in part:
+            chunk.append(t)
+            n += len(t["events"]) + 1
+            if n >= MAX_EVENTS_PER_RUN:
+                chunks.append(chunk)
+                chunk, n = [], 0
+        if chunk:
+            chunks.append(chunk)
+        todo += [(c, ai) for c in chunks]
+    par = max(1, min(PARALLEL_TLC, workers // WORKERS_PER_TLC if workers >= WORKERS_PER_TLC else 1))
+    with concurrent.futures.ThreadPoolExecutor(max_workers=par) as ex:
+        futs = [ex.submit(_judge_chunk, c, ai, min(workers, WORKERS_PER_TLC), timeout, verdicts, stats) for c, ai in todo]
+        for f in futs:
+            f.result()
     return verdicts, stats
+
+
+def _judge_chunk(part, ai, workers, timeout, verdicts, stats):
+    scratch = tlc.mkscratch("judge-")
+    try:
+        path = os.path.join(scratch, "traces.json")
+        with open(path, "w") as fh:
+            json.dump({"traces": [{k: t[k] for k in ("id", "init", "valid0", "events", "mode") if k in t}
+                                  for t in part]}, fh)
+        cfg = tlc.cfg_text(init="TraceInit", next_="TraceNext", constants={"AutoIndex": bool(ai)},
+                           invariants=["Verdict", "TraceTyped"])
+        r = tlc.run_tlc("Trace_TinyFlux", cfg, env={"VERIF_IN": path}, workers=workers, timeout=timeout, heap="3g")
+        tlc.require_clean(r, "Trace_TinyFlux (auto_index=%d)" % ai)
+        if r.violated:
+            raise tlc.MachineryError("trace spec invariant violated: %s\n%s" % (r.violated, r.tail(40)))
+        got = {v["id"]: v for v in r.lines("VERDICT")}
+        missing = [t["id"] for t in part if t["id"] not in got]
+        if missing:
+            raise tlc.MachineryError("no verdict for %d trace(s), e.g. %r\n%s" % (len(missing), missing[:3], r.tail(30)))
+        verdicts.update(got)
+        stats["states"] += r.distinct
+        stats["transitions"] += r.states
+        stats["cmd"] = r.cmd
+        stats["tlc_runs"] += 1
+    finally:
+        shutil.rmtree(scratch, ignore_errors=True)
 
 
 def errors(verdict):
